@@ -911,6 +911,8 @@ class DocTest:
                             exc_got = traceback.format_exception_only(*exception[:2])[-1]
                             want = part.want
                             checker.check_exception(exc_got, want, runstate)
+                            # Clear unmatched output when a check passes
+                            self._unmatched_stdout = []
                         else:
                             raise
                     else:
